@@ -73,7 +73,7 @@ func VInv(l *List[int]) {
 
 func VHListStep() {
 	l, pre := VGList()
-	lists.VSeqStep(l, pre, lists.VExt{
+	lists.VSeqStep(l, pre, lists.VExt{Name: "DoublyLinkedList",
 		Append:  l.Append,
 		Prepend: l.Prepend,
 		IndexOf: l.IndexOf,
